@@ -29,6 +29,27 @@ theorem Inv.comp {S : List X} {μ : X → ℚ} {K₁ K₂ : X → Dist X} (h₁ 
   simp only [E_bind]
   rw [h₁ (fun y => E (K₂ y) h), h₂ h]
 
+/-- any finite sequence of invariant kernels, applied one after the other -/
+def seqK : List (X → Dist X) → X → Dist X
+  | [], x => Dist.pure x
+  | K :: Ks, x => Dist.bind (K x) (seqK Ks)
+
+theorem Inv.seq {S : List X} {μ : X → ℚ} (Ks : List (X → Dist X)) (h : ∀ K ∈ Ks, Inv S μ K) :
+    Inv S μ (seqK Ks) := by
+  induction Ks with
+  | nil => exact Inv.pure S μ
+  | cons K Ks ih =>
+    exact Inv.comp (h K List.mem_cons_self) (ih fun K' hK' => h K' (List.mem_cons_of_mem _ hK'))
+
+/-- target form: the mass flowing into `y` is the mass of `y` -/
+theorem Inv.target [DecidableEq X] {S : List X} {μ : X → ℚ} {K : X → Dist X} (hK : Inv S μ K)
+    (hS : S.Nodup) {y : X} (hy : y ∈ S) : lsum S (fun x => μ x * prob (K x) y) = μ y := by
+  unfold prob
+  rw [hK, lsum_eq_sum hS, Finset.sum_eq_single y]
+  · simp
+  · intro b _ hb; simp [hb]
+  · intro hn; exact absurd (List.mem_toFinset.mpr hy) hn
+
 theorem lsum_filter_add (S : List X) (p : X → Bool) (g : X → ℚ) :
     lsum S g = lsum (S.filter p) g + lsum (S.filter fun x => !p x) g := by
   induction S with
